@@ -272,6 +272,32 @@ Definition perform (s : sess) (c : call) : list event * outcome :=
       end
   end.
 
+(* ---------------- order of calls: the object is built before / after the <hello> exchange ---------------- *)
+(* `Session.__init__` sets `_server_capabilities = None # yet`; `_post_connect` stores the server's capabilities.  The
+   operation classes are public: an application may build `Commit(session, device_handler)` on a session it connects
+   afterwards.  [None] = the object is built while `session.server_capabilities is None`: the first `_assert` of the
+   DEPENDS loop evaluates `capability not in None`, a TypeError (`except AttributeError` does not catch it) raised before
+   the registration; with an empty DEPENDS the loop body never runs and the object is built and registered.
+   [Some s0] = built on a session whose capabilities are s0.  request() then runs on the connected session [s]. *)
+Definition construct_at (s0 : option sess) (deps : list bytes) : list event * option exn :=
+  match s0 with
+  | Some s => construct s deps
+  | None => match deps with [] => ([EvRegister], None) | _ :: _ => ([], Some TypeError) end
+  end.
+
+Definition perform_prog_at (s0 : option sess) (s : sess) (deps : list bytes) (prog : list step) : list event * outcome :=
+  match construct_at s0 deps with
+  | (tr, Some e) => (tr, Exn e)
+  | (tr, None) =>
+      match run_steps s prog with
+      | (tr', Some e) => (tr ++ tr', Exn e)
+      | (tr', None) => (tr ++ tr' ++ [EvSend], Sent)
+      end
+  end.
+
+Definition perform_at (s0 : option sess) (s : sess) (c : call) : list event * outcome :=
+  perform_prog_at s0 s (class_deps c) (steps_of c).
+
 (* ---------------- what a sent request carries ---------------- *)
 (* the capability-dependent constructs request() puts into the element it hands to _request — the same branches of
    the same functions as [body_steps], read for their `sub_ele` / `new_ele` calls instead of their `_assert` calls *)
